@@ -56,6 +56,8 @@ CONSTANTS
                     \* "q" (the assignment-defined parameter itself; only with variant "ia")
     Kinds,          \* scan entry points (only carried into the emitted configuration)
     FailModes,      \* ways a row may fail (carried into the configuration)
+    NameSchemes,    \* how the model's parameters / variable are NAMED in the rendering (carried into the
+                    \* configuration only: the specification is silent about names, every scheme must behave alike)
     Y0s,            \* admissible y0= arguments: 0 = none, v > 0 = {x: v} (base initial values given to the scan)
     Y0Again,        \* TRUE: implementation-shaped wrong instance that applies y0 once more AFTER the row
     MaxDur,         \* durations 1..MaxDur (Timed)
@@ -112,7 +114,7 @@ Expected(i) ==
     ELSE LET c == WithRow(Base, i) IN [t |-> "val", traj |-> Traj(c), fl |-> Flux(c)]
 
 NoTask == [st |-> "todo", w |-> 0, ref |-> 0, pars |-> PlainPars(Original), traj |-> Traj(Original), rem |-> 0]
-Unset == [kind |-> "", n |-> 0, w |-> 0, mode |-> "", variant |-> "", cols |-> {}, fail |-> 0 - 1, failmode |-> "", y0 |-> 0 - 1]
+Unset == [kind |-> "", n |-> 0, w |-> 0, mode |-> "", variant |-> "", cols |-> {}, fail |-> 0 - 1, failmode |-> "", y0 |-> 0 - 1, names |-> ""]
 Rows == 1..cfg.n
 
 Init ==
@@ -139,7 +141,8 @@ Setup ==
        \/ cfg.variant # "" /\ cfg.cols = {} /\ \E v \in ColSets :
                 ("q" \in v => cfg.variant = "ia") /\ cfg' = [cfg EXCEPT !.cols = v] /\ UNCHANGED <<phase, dur>>
        \/ cfg.cols # {} /\ cfg.y0 < 0 /\ \E v \in Y0s : cfg' = [cfg EXCEPT !.y0 = v] /\ UNCHANGED <<phase, dur>>
-       \/ cfg.y0 >= 0 /\ cfg.fail = 0 - 1 /\ \E v \in {0, 0 - 2} : cfg' = [cfg EXCEPT !.fail = v] /\ UNCHANGED <<phase, dur>>
+       \/ cfg.y0 >= 0 /\ cfg.names = "" /\ \E v \in NameSchemes : cfg' = [cfg EXCEPT !.names = v] /\ UNCHANGED <<phase, dur>>
+       \/ cfg.names # "" /\ cfg.fail = 0 - 1 /\ \E v \in {0, 0 - 2} : cfg' = [cfg EXCEPT !.fail = v] /\ UNCHANGED <<phase, dur>>
        \/ cfg.fail = 0 - 2 /\ \E v \in 1..cfg.n : cfg' = [cfg EXCEPT !.fail = v] /\ UNCHANGED <<phase, dur>>
        \/ cfg.fail > 0 /\ cfg.failmode = "" /\ \E v \in FailModes :
                 (v = "nosteady" => IsSteady(cfg.kind)) /\ cfg' = [cfg EXCEPT !.failmode = v] /\ UNCHANGED <<phase, dur>>
